@@ -53,6 +53,9 @@ pub struct Logical {
     pub unsigned_date: bool,
     /// sign with this 32-byte key instead of the key derived from `secret` (the provider script is separate)
     pub raw_key: Option<Vec<u8>>,
+    /// list this (already signed) header name a second time in the signed-header list; it then contributes its
+    /// line a second time as well
+    pub dup_signed: Option<String>,
 }
 
 /// How the wire request spells the logical one.
@@ -300,7 +303,8 @@ pub fn random_logical(rng: &mut Rng) -> Logical {
     let base_days = *rng.pick(&[16677i64, 16678, 16860, 19782, 19783, 11016, 11017, 18262, 20088, 20147, 17896, 16801, 18628, 16802, 18992]);
     let time_ns = (base_days as i128 * 86400 + rng.range(0, 86399) as i128) * 1_000_000_000
         + if rng.chance(1, 4) { rng.range(0, 999_999_999) as i128 } else { 0 };
-    let off = if rng.chance(1, 2) { 0 } else { rng.range(-14 * 4, 14 * 4) * 900 };
+    // zone offsets: none, any quarter-hour step, or one with a zero hour (the sign then lives on "00")
+    let off = match rng.below(8) { 0..=3 => 0, 4 => *rng.pick(&[-900i64, -1800, -2700, -3540, -60, 60, 900, 2700]), _ => rng.range(-14 * 4, 14 * 4) * 900 };
     let time_style = (off, (rng.below(128)) as u8, if rng.chance(1, 4) { rng.below(12) } else { 0 });
     let carrier = if rng.chance(1, 2) { Carrier::Header } else { Carrier::Query };
     Logical {
@@ -329,6 +333,7 @@ pub fn random_logical(rng: &mut Rng) -> Logical {
         decoys: rng.chance(1, 4),
         unsigned_date: false,
         raw_key: None,
+        dup_signed: None,
     }
 }
 
@@ -448,6 +453,12 @@ pub fn sign_and_spell(l: &Logical, rng: &mut Rng, sp: &Spelling, now: (i64, u32)
     }
     signed.sort();
     signed.dedup();
+    if let Some(d) = &l.dup_signed {
+        if signed.contains(d) {
+            signed.push(d.clone());
+            signed.sort();
+        }
+    }
     let mut listed = signed.clone();
     if sp.unsorted_signed_list {
         rng.shuffle(&mut listed);
